@@ -80,7 +80,15 @@ type realLog struct {
 func quiet() *slog.Logger { return slog.New(slog.NewTextHandler(io.Discard, nil)) }
 
 func (h *harness) newRealLog(tag string) (*realLog, error) {
-	rl := &realLog{h: h, name: "example.com/" + tag, base: h.newDir("real")}
+	return h.newRealLogIn(tag, h.newDir("real"))
+}
+
+// newRealLogIn: base will hold log/ (the LocalDirectory), lock.db and cache.db
+func (h *harness) newRealLogIn(tag, base string) (*realLog, error) {
+	if err := os.MkdirAll(base, 0o755); err != nil {
+		return nil, err
+	}
+	rl := &realLog{h: h, name: "example.com/" + tag, base: base}
 	rl.dir = filepath.Join(rl.base, "log")
 	rl.lockPath = filepath.Join(rl.base, "lock.db")
 	var err error
@@ -272,6 +280,13 @@ func (rl *realLog) gcAndCheck(tag string, reload, lockComplete bool) {
 		h.stats["runs_lock_ahead"]++
 	}
 	h.gcRun(tag, "log", rl.dir, rl.dir, strconv.FormatInt(pub.N, 10))
+	rl.afterGc(tag, pub, lockT, reload, lockComplete)
+}
+
+// afterGc: the monitors on a real log directory after a run of partial-aftersun that covered it
+// (alone, or as one of several directories of the config).
+func (rl *realLog) afterGc(tag string, pub, lockT tlog.Tree, reload, lockComplete bool) {
+	h := rl.h
 	// the published tree is still completely readable and verifiable
 	h.mon("audit_published", tag, auditLogTree(rl.dir, pub))
 	if lockT.N > pub.N && lockComplete {
@@ -419,81 +434,105 @@ func (h *harness) mirrorScenarios() {
 		h.stats["scenario:mirror-real-hashes"]++
 		wdir := h.newDir("witness")
 		origin := "example.com/mirrored-" + strconv.Itoa(i)
-		prefix := "mirror/" + witness.OriginHash(origin) + "/"
-		lb, err := ctlog.NewLocalBackend(context.Background(), wdir, quiet())
-		if err != nil {
-			h.mon("setup", tag, err)
-			continue
-		}
-		var stored []tlog.Hash
-		hr := tlog.HashReaderFunc(func(idx []int64) ([]tlog.Hash, error) {
-			out := make([]tlog.Hash, len(idx))
-			for k, x := range idx {
-				out[k] = stored[x]
-			}
-			return out, nil
-		})
-		trees := map[int64]tlog.Tree{}
-		imm := &ctlog.UploadOptions{Immutable: true}
-		cur := int64(0)
-		fail := false
-		for _, s := range sizes {
-			for n := cur; n < s; n++ {
-				var rec [16]byte
-				h.rng.Read(rec[:])
-				hs, err := tlog.StoredHashes(n, rec[:], hr)
-				if err != nil {
-					panic(err)
-				}
-				stored = append(stored, hs...)
-			}
-			for _, t := range tlog.NewTiles(sunlight.TileHeight, cur, s) {
-				data, err := tlog.ReadTileData(t, hr)
-				if err != nil {
-					panic(err)
-				}
-				if err := lb.Upload(context.Background(), prefix+torchwood.TilePath(t), data, imm); err != nil {
-					fail = true
-				}
-				if t.L == 0 {
-					t.L = -1
-					if err := lb.Upload(context.Background(), prefix+torchwood.TilePath(t), []byte(fmt.Sprintf("bundle %d/%d", t.N, t.W)), imm); err != nil {
-						fail = true
-					}
-				}
-			}
-			root, err := tlog.TreeHash(s, hr)
-			if err != nil {
-				panic(err)
-			}
-			trees[s] = tlog.Tree{N: s, Hash: root}
-			cur = s
-		}
-		if fail {
-			h.mon("setup", tag, errors.New("tile upload failed"))
-			continue
-		}
 		// mirror checkpoint: at the last size, or one commit behind (tiles of the pending tree
 		// are already there)
 		at := sizes[len(sizes)-1]
 		if i%2 == 1 {
 			at = sizes[len(sizes)-2]
 		}
-		ct := trees[at]
-		text := fmt.Sprintf("%s\n%d\n%s\n", origin, ct.N, base64.StdEncoding.EncodeToString(ct.Hash[:]))
-		text += "\n— " + origin + " " + base64.StdEncoding.EncodeToString(append([]byte{9, 9, 9, 9}, ct.Hash[:]...)) + "\n"
-		if err := lb.Upload(context.Background(), prefix+"checkpoint", []byte(text), nil); err != nil {
+		m, err := h.buildMirror(wdir, origin, sizes, at)
+		if err != nil {
 			h.mon("setup", tag, err)
 			continue
 		}
-		mdir := filepath.Join(wdir, filepath.FromSlash(prefix))
-		// leftovers
-		os.WriteFile(filepath.Join(mdir, "tile", "0", ".0009999"), []byte("tmp"), 0o600)
-		os.MkdirAll(filepath.Join(mdir, "tile", "entries", "x001", "002.p"), 0o755)
-		os.WriteFile(filepath.Join(mdir, "tile", "entries", "x001", "002.p", "9"), []byte("orphan"), 0o600)
-		tag = fmt.Sprintf("%s-at%d-of%d", tag, at, cur)
-		h.gcRun(tag, "mirror", wdir, mdir, strconv.FormatInt(at, 10))
-		h.mon("audit_published", tag, auditMirrorTree(mdir, ct))
-		h.mon("audit_pending", tag, auditMirrorTree(mdir, trees[cur]))
+		tag = fmt.Sprintf("%s-at%d-of%d", tag, at, m.cur)
+		h.gcRun(tag, "mirror", wdir, m.dir, strconv.FormatInt(at, 10))
+		m.afterGc(tag)
 	}
+}
+
+// realMirror is a mirror/<origin hash>/ directory with real hash tiles.
+type realMirror struct {
+	h     *harness
+	dir   string
+	at    int64 // size of the mirror checkpoint
+	cur   int64 // size up to which tiles and entry bundles are uploaded
+	trees map[int64]tlog.Tree
+}
+
+func (m *realMirror) afterGc(tag string) {
+	m.h.mon("audit_published", tag, auditMirrorTree(m.dir, m.trees[m.at]))
+	m.h.mon("audit_pending", tag, auditMirrorTree(m.dir, m.trees[m.cur]))
+}
+
+// buildMirror fills wdir/mirror/<origin hash>/ the way the witness does: tiles of every size of
+// the history (so that superseded partial tiles stay behind), mirror checkpoint at size at.
+func (h *harness) buildMirror(wdir, origin string, sizes []int64, at int64) (*realMirror, error) {
+	prefix := "mirror/" + witness.OriginHash(origin) + "/"
+	lb, err := ctlog.NewLocalBackend(context.Background(), wdir, quiet())
+	if err != nil {
+		return nil, err
+	}
+	var stored []tlog.Hash
+	hr := tlog.HashReaderFunc(func(idx []int64) ([]tlog.Hash, error) {
+		out := make([]tlog.Hash, len(idx))
+		for k, x := range idx {
+			out[k] = stored[x]
+		}
+		return out, nil
+	})
+	trees := map[int64]tlog.Tree{}
+	imm := &ctlog.UploadOptions{Immutable: true}
+	cur := int64(0)
+	fail := false
+	for _, s := range sizes {
+		for n := cur; n < s; n++ {
+			var rec [16]byte
+			h.rng.Read(rec[:])
+			hs, err := tlog.StoredHashes(n, rec[:], hr)
+			if err != nil {
+				panic(err)
+			}
+			stored = append(stored, hs...)
+		}
+		for _, t := range tlog.NewTiles(sunlight.TileHeight, cur, s) {
+			data, err := tlog.ReadTileData(t, hr)
+			if err != nil {
+				panic(err)
+			}
+			if err := lb.Upload(context.Background(), prefix+torchwood.TilePath(t), data, imm); err != nil {
+				fail = true
+			}
+			if t.L == 0 {
+				t.L = -1
+				if err := lb.Upload(context.Background(), prefix+torchwood.TilePath(t), []byte(fmt.Sprintf("bundle %d/%d", t.N, t.W)), imm); err != nil {
+					fail = true
+				}
+			}
+		}
+		root, err := tlog.TreeHash(s, hr)
+		if err != nil {
+			panic(err)
+		}
+		trees[s] = tlog.Tree{N: s, Hash: root}
+		cur = s
+	}
+	if fail {
+		return nil, errors.New("tile upload failed")
+	}
+	ct, ok := trees[at]
+	if !ok {
+		return nil, fmt.Errorf("no tree of size %d in the history", at)
+	}
+	text := fmt.Sprintf("%s\n%d\n%s\n", origin, ct.N, base64.StdEncoding.EncodeToString(ct.Hash[:]))
+	text += "\n— " + origin + " " + base64.StdEncoding.EncodeToString(append([]byte{9, 9, 9, 9}, ct.Hash[:]...)) + "\n"
+	if err := lb.Upload(context.Background(), prefix+"checkpoint", []byte(text), nil); err != nil {
+		return nil, err
+	}
+	mdir := filepath.Join(wdir, filepath.FromSlash(prefix))
+	// leftovers
+	os.WriteFile(filepath.Join(mdir, "tile", "0", ".0009999"), []byte("tmp"), 0o600)
+	os.MkdirAll(filepath.Join(mdir, "tile", "entries", "x001", "002.p"), 0o755)
+	os.WriteFile(filepath.Join(mdir, "tile", "entries", "x001", "002.p", "9"), []byte("orphan"), 0o600)
+	return &realMirror{h: h, dir: mdir, at: at, cur: cur, trees: trees}, nil
 }
